@@ -12,6 +12,7 @@ partial def namesIn (j : Json) : List String :=
   | .obj m =>
     m.toList.flatMap fun (k, v) =>
       (if k == "properties" || k == "schemas" then (match v with | .obj mm => mm.toList.map (·.1) | _ => []) else []) ++
+      (if k == "operationId" || k == "propertyName" then (match v with | .str x => [x] | _ => []) else []) ++
       (if k == "parameters" then (match v with | .arr a => a.toList.filterMap fun p => (p.getObjValAs? String "name").toOption | _ => []) else []) ++
       namesIn v
   | .arr a => a.toList.flatMap namesIn
@@ -31,6 +32,33 @@ def allOfGraph (spec : Json) : List (Oas3.Depth.Name × List Oas3.Depth.Name) :=
             | .ok (.str r) => if r.startsWith Oas3.Driver.Graph.refPrefix then some (r.drop Oas3.Driver.Graph.refPrefix.length).toString.toList else none
             | _ => none
         | _ => [])
+  | _ => []
+
+/-- `#/components/<kind>/<name>` with non-empty kind and name: the only shape oas3 0.20's `Ref::from_str` survives -/
+def refShapeOk (r : String) : Bool :=
+  match r.splitOn "/" with
+  | ["#", "components", kind, name] => !kind.isEmpty && !name.isEmpty
+  | _ => false
+
+/-- alias-like parent graph: `A: {$ref B}`, `A: {type: array, items: {$ref B}}`, `A: {allOf: [{$ref B}…]}` -/
+def aliasGraph (spec : Json) : List (Oas3.Depth.Name × List Oas3.Depth.Name) :=
+  let refOf (x : Json) : Option Oas3.Depth.Name := match x.getObjVal? "$ref" with
+    -- `parse_schema_ref_path`: ANY `#/components/<kind>/<name>` is read as the schema `<name>`
+    | .ok (.str r) => if r.startsWith "#/components" && refShapeOk r then some ((r.splitOn "/").getLast!.toList) else none
+    | _ => none
+  match (fieldD (fieldD spec "components" (Json.mkObj [])) "schemas" (Json.mkObj [])) with
+  | .obj m => m.toList.map fun (k, v) =>
+      (k.toList,
+        (refOf v).toList ++
+        (match v.getObjVal? "items" with | .ok it => (refOf it).toList | _ => []) ++
+        (match v.getObjVal? "allOf" with | .ok (.arr a) => a.toList.filterMap refOf | _ => []))
+  | _ => []
+
+/-- every `$ref` string of the document -/
+partial def refsIn (j : Json) : List String :=
+  match j with
+  | .obj m => m.toList.flatMap fun (k, v) => (if k == "$ref" then (match v with | .str r => [r] | _ => []) else []) ++ refsIn v
+  | .arr a => a.toList.flatMap refsIn
   | _ => []
 
 def promised (mode : String) : List String :=
@@ -54,11 +82,14 @@ def outcome : Handler := fun req => do
   let has (s : String) : Bool := (stderr.splitOn s).length > 1
   -- spec-side predicates for the known classes
   let g := allOfGraph spec
-  let allOfCycle := g.any fun p => Oas3.Graph.cyclic g p.1 == some true
+  let ag := aliasGraph spec
+  let allOfCycle := (g.any fun p => Oas3.Graph.cyclic g p.1 == some true) || (ag.any fun p => Oas3.Graph.cyclic ag p.1 == some true)
+  let badRef := (refsIn spec).any fun r => !refShapeOk r
   let names := namesIn spec
   let fieldOf (n : String) : List Char := Oas3.Client.fieldName n.toList
   let badField := names.any fun n => n.toList.all (fun c => c.toNat < 128) &&
     (let f := fieldOf n; f == "r#crate".toList || f == "r#super".toList || f == ['_'] || (Oas3.Naming.rawPassthrough n.toList && !Oas3.Naming.legal .field n.toList))
+  let selfType := names.any fun n => n.toList.all (fun c => c.toNat < 128) && Oas3.Naming.toRustTypeName Oas3.Gen.prelude Oas3.Client.idTr n.toList == "r#Self".toList
   let nonAscii := names.any fun n => n.toList.any (fun c => c.toNat ≥ 128)
   let methods := (methodsIn spec).map String.toLower
   let optTrace := methods.contains "options" || methods.contains "trace"
@@ -70,8 +101,10 @@ def outcome : Handler := fun req => do
     else if panicked then
       let known :=
         (if optTrace && mode != "types" && has "reqwest::Method::" then ["KnownOptionsTrace"] else []) ++
-        (if badField && (has "cannot be a raw identifier" || has "is not a valid Ident" || has "Ident is not allowed to be empty") then ["KnownBadIdentPanic"] else []) ++
-        (if has "is not a valid Ident" && (has "Vec<u8>" || has "EventStream<") then ["KnownVariantSuffixPanic"] else [])
+        (if badField && (has "cannot be a raw identifier" || has "is not a valid Ident" || has "Ident is not allowed to be empty" || has "Ident cannot be a number") then ["KnownBadIdentPanic"] else []) ++
+        (if has "is not a valid Ident" && (has "Vec<u8>" || has "EventStream<") then ["KnownVariantSuffixPanic"] else []) ++
+        (if selfType && has "r#Self" then ["KnownBadIdentPanic"] else []) ++
+        (if badRef && has "oas3-" && has "src/spec/ref.rs" then ["KnownRefParsePanic"] else [])
       verdict false known s!"the generator panicked (rc={rc})"
     else if rc == 0 then
       if target != "ok" then verdict false [] "exit status 0 although the output target cannot be written"
